@@ -191,7 +191,16 @@ int main(void) {
       end_case(); continue;
     }
     if (op[0] == 'd') {
-      if (is_op("dcons")) {
+      if (is_op("dfromd")) {
+        /* construction from a double given as a C99 hex float; dyadic and rational constructors, then back */
+        double x = strtod(vtok[1], NULL);
+        lp_dyadic_rational_t d; lp_dyadic_rational_construct_from_double(&d, x);
+        lp_rational_t q; lp_rational_construct_from_double(&q, x);
+        pdy(&d); putchar(' '); pq(&q);
+        printf(" %d %d", lp_dyadic_rational_to_double(&d) == x, lp_rational_to_double(&q) == x);
+        lp_dyadic_rational_destruct(&d); lp_rational_destruct(&q);
+      }
+      else if (is_op("dcons")) {
         /* a fits long by construction of the generator for this op */
         lp_dyadic_rational_t d; lp_dyadic_rational_construct_from_int(&d, strtol(vtok[1], NULL, 10), strtoul(vtok[2], NULL, 10));
         lp_dyadic_rational_t d2; lp_dyadic_rational_construct(&d2); lp_dyadic_rational_assign_int(&d2, strtol(vtok[1], NULL, 10), strtoul(vtok[2], NULL, 10));
